@@ -16,6 +16,7 @@
 -/
 import RotoV.Lemmas.RegistrationAccepts
 import RotoV.Generated.Keywords
+import RotoV.Generated.RegPasses
 
 namespace RotoV.C18
 open RotoV.Reg
@@ -423,6 +424,145 @@ theorem fixed_type_named_like_primitive :
     (match register Cfg.fixed lexV st0 (il [.module 0 (il [.type 50 3]), .impl 3 (il [fn0 4 8])]) with
      | .ok st => resolvePath st [0, 50, 4]
      | _ => none) = some ⟨.method [] .unit 8, none⟩ := by decide
+
+/-! ## non-vacuity of the full-strength theorems -/
+
+theorem isOk_elim {α} {r : Res α} (h : r.isOk = true) : ∃ a, r = .ok a := by
+  cases r <;> simp [Res.isOk] at h; exact ⟨_, rfl⟩
+theorem isErr_elim {α} {r : Res α} (h : r.isErr = true) : ∃ e, r = .err e := by
+  cases r <;> simp [Res.isErr] at h; exact ⟨_, rfl⟩
+
+/-- a library with a type in a module, an impl block for it at the root (one
+    method, one constant), a function that mentions the type, a `use` -/
+def libImpl : Items :=
+  il [.module 0 (il [.type 1 7]), .impl 7 (il [fn0 2 5, .constant 3 (.reg 7) 9]),
+      .function 4 [.reg 7] (.option (.reg 7)) 6, .use [[0, 1]]]
+
+/-- non-vacuity of `add_succeeds_iff`: `Accepts` is satisfiable -/
+example : Accepts lexV st0 libImpl := by
+  obtain ⟨st', h⟩ := isOk_elim (show (register Cfg.fixed lexV st0 libImpl).isOk = true by decide)
+  exact ((add_succeeds_iff lexV st0 (init_wf _ _) libImpl st').mp h).1
+
+/-- non-vacuity of `add_fails_iff`, one library per listed defect: a name bound
+    twice, a method clashing with a method of the same type from another impl
+    block, a Rust type registered twice, an unregistered type in a signature, an
+    impl block for an unregistered type, a module inside an impl block, a `use`
+    through a function -/
+example : ¬ Accepts lexV st0 (il [fn0 1 5, .module 1 .nil]) :=
+  (add_fails_iff lexV st0 (init_wf _ _) _).mp (isErr_elim (by decide))
+example : ¬ Accepts lexV st0 (il [.module 0 (il [.type 1 7, .impl 7 (il [fn0 2 5])]), .impl 7 (il [fn0 2 6])]) :=
+  (add_fails_iff lexV st0 (init_wf _ _) _).mp (isErr_elim (by decide))
+example : ¬ Accepts lexV st0 (il [.type 1 7, .module 0 (il [.type 2 7])]) :=
+  (add_fails_iff lexV st0 (init_wf _ _) _).mp (isErr_elim (by decide))
+example : ¬ Accepts lexV st0 (il [.function 1 [.list (.reg 7)] .unit 5]) :=
+  (add_fails_iff lexV st0 (init_wf _ _) _).mp (isErr_elim (by decide))
+example : ¬ Accepts lexV st0 (il [.impl 7 .nil]) :=
+  (add_fails_iff lexV st0 (init_wf _ _) _).mp (isErr_elim (by decide))
+example : ¬ Accepts lexV st0 (il [.type 1 7, .impl 7 (il [.module 2 .nil])]) :=
+  (add_fails_iff lexV st0 (init_wf _ _) _).mp (isErr_elim (by decide))
+example : ¬ Accepts lexV st0 (il [fn0 1 5, .use [[1, 2]]]) :=
+  (add_fails_iff lexV st0 (init_wf _ _) _).mp (isErr_elim (by decide))
+
+/-- non-vacuity of `reachable_impl_items`: the impl block stands at the root,
+    the type in module 0 — the method and the constant resolve below the type -/
+example : ItemAt libImpl [0] (.type 1 7) ∧ ItemAt libImpl [] (.impl 7 (il [fn0 2 5, .constant 3 (.reg 7) 9])) :=
+  ⟨.inside 0 _ (.here _ _), .there _ (.here _ _)⟩
+example :
+    (match register Cfg.fixed lexV st0 libImpl with
+     | .ok st => (resolvePath st [0, 1, 2], resolvePath st [0, 1, 3], resolvePath st [2], resolvePath st [1, 2])
+     | _ => (none, none, none, none)) =
+    (some ⟨.method [] .unit 5, none⟩, some ⟨.const (.name ⟨[0], 1⟩) 9, none⟩, none,
+     -- `use 0::1` imports the type at the root, so `1.2` names the method too
+     some ⟨.method [] .unit 5, none⟩) := by decide
+
+/-- non-vacuity of `order_indep`: reorderings at the top, in a module and in an impl block;
+    one pair that succeeds, one that fails in both orders -/
+example :
+    Shuffle libImpl (il [.use [[0, 1]], .impl 7 (il [.constant 3 (.reg 7) 9, fn0 2 5]),
+      .function 4 [.reg 7] (.option (.reg 7)) 6, .module 0 (il [.type 1 7])]) := by
+  refine .trans (.tail _ (.inImpl 7 _ (.swap _ _ _))) ?_
+  refine .trans (.swap _ _ _) ?_
+  refine .trans (.tail _ (.swap _ _ _)) ?_
+  refine .trans (.tail _ (.tail _ (.swap _ _ _))) ?_
+  refine .trans (.tail _ (.swap _ _ _)) ?_
+  exact .swap _ _ _
+example :
+    (register Cfg.fixed lexV st0 (il [fn0 1 5, .impl 7 .nil])).isErr = true ∧
+    (register Cfg.fixed lexV st0 (il [.impl 7 .nil, fn0 1 5])).isErr = true := by decide
+
+/-- non-vacuity of `reachable_nowhere_else` / `tables_hold_exactly`: what the library declares -/
+example : (Declared lexV st0 libImpl).map (·.1) =
+    [⟨[], 0⟩, ⟨[0], 1⟩, ⟨[0, 1], 2⟩, ⟨[], 4⟩, ⟨[0, 1], 3⟩] ∧
+    Imported lexV st0 libImpl = [(1, ⟨[0], 1⟩)] := by decide
+
+/-- non-vacuity of `use_in_module_not_repairable_by_registration`: moving the
+    import of `witnessC` into the module's own scope changes no resolution -/
+example (st : St) : (st.insertImport [1] 2 ⟨[0], 2⟩).decls = st.decls ∧
+    (st.insertImport [1] 2 ⟨[0], 2⟩).imports [] = st.imports [] :=
+  ⟨rfl, by funext n; simp [St.insertImport]⟩
+
+/-! ## the passes are written as modelled (regenerated from src/runtime/mod.rs on every run) -/
+
+/-- **The tie of the pass structure.** What the translator reads from
+    `Rt::add` and the `declare_*` functions — the order of the five passes and
+    the scope each starts from; for every pass what each `match item` arm does
+    and with which scope (a module's children with the module's own scope, an
+    impl block's children with the scope *of the registered type*
+    `get_scope_of(ty.name.scope, ty.name.ident)`; the import pass hands a
+    module's children the *same* scope); `declare_import` walking from a cursor
+    and registering in the starting scope — is exactly what
+    `Model/Registration.lean` embodies. -/
+theorem passes_as_modelled : RotoV.Gen.RegPasses.facts = Src.asModelled := by decide
+
+/-- the model switches the source determines are those of `Cfg.fixed` -/
+theorem source_cfg : RotoV.Gen.RegPasses.facts.cfg = Cfg.fixed := by decide
+
+/-- T4 and T3-for-impl-blocks on the configuration read from the source: a
+    change of the scope an impl block is resolved in (seeded change C18-1), or of
+    the walk of `declare_import`, breaks these two theorems. -/
+theorem order_indep_on_source (lex : Name → Lex) (st : St) (hw : WF st) (items items' : Items)
+    (hs : Shuffle items items') :
+    match register RotoV.Gen.RegPasses.facts.cfg lex st items,
+          register RotoV.Gen.RegPasses.facts.cfg lex st items' with
+    | .ok a, .ok b => a = b
+    | .err _, .err _ => True
+    | _, _ => False := by
+  rw [source_cfg]; exact order_indep lex st hw items items' hs
+
+theorem reachable_impl_items_on_source (lex : Name → Lex) (st st' : St) (hw : WF st) (items : Items)
+    (h : register RotoV.Gen.RegPasses.facts.cfg lex st items = .ok st')
+    {p q : List Name} {tn : Name} {id : TyId} {ch : Items}
+    (ht : ItemAt items p (.type tn id)) (hi : ItemAt items q (.impl id ch)) :
+    ∀ n ps r tag, Item.function n ps r tag ∈ ch.toList →
+      ∃ ps' r', resolvePath st' (p ++ [tn] ++ [n]) = some ⟨.method ps' r' tag, none⟩ := by
+  rw [source_cfg] at h
+  intro n ps r tag hm
+  obtain ⟨ps', r', _, _, h3⟩ := (reachable_impl_items lex st st' hw items h ht hi).1 n ps r tag hm
+  exact ⟨ps', r', h3⟩
+
+/-- Had the impl block been resolved where it stands (`Cfg.implAtSite`, what
+    the facts of seeded change C18-1 translate to): the library `libImpl`
+    panics, a type of the same name at the root captures the methods, and the
+    outcome depends on the order of the items. -/
+def cfgAtSite : Cfg := { Cfg.fixed with implAtSite := true }
+
+example : ({ Src.asModelled with
+    arms := [(.declareFunctions, [(.impl, .recurse .declareMethods .ofTypeAtSite)])] } : Src.Facts).cfg = cfgAtSite := by
+  decide
+
+theorem impl_at_site_panics : (register cfgAtSite lexV st0 libImpl).isPanic = true := by decide
+
+theorem impl_at_site_wrong_scope :
+    (match register cfgAtSite lexV st0 (il [.module 0 (il [.type 1 7]), .type 1 8, .impl 7 (il [fn0 2 5])]) with
+     | .ok st => (resolvePath st [0, 1, 2], resolvePath st [1, 2])
+     | _ => (none, none)) = (none, some ⟨.method [] .unit 5, none⟩) := by decide
+
+theorem impl_at_site_order_dependent :
+    Shuffle (il [.module 0 (il [.type 1 7]), .impl 7 .nil, fn0 3 1, fn0 3 2])
+            (il [.module 0 (il [.type 1 7]), fn0 3 1, fn0 3 2, .impl 7 .nil]) ∧
+    (register cfgAtSite lexV st0 (il [.module 0 (il [.type 1 7]), .impl 7 .nil, fn0 3 1, fn0 3 2])).isPanic = true ∧
+    (register cfgAtSite lexV st0 (il [.module 0 (il [.type 1 7]), fn0 3 1, fn0 3 2, .impl 7 .nil])).isErr = true :=
+  ⟨.tail _ (.trans (.swap _ _ _) (.tail _ (.swap _ _ _))), by decide, by decide⟩
 
 /-! ## the keyword table -/
 
